@@ -30,4 +30,17 @@ DerivBwd(F, i, desc, w, ref) ==
     IN  IF desc = "uniform" THEN delta ELSE IntOf(Scaled(ScaleBwd(w, ref)[i], delta))
 StepE1(E, H, mat, desc, w, ref) == [ i \in 1..Len(E) |-> E[i] + mat[i] * DerivBwd(H, i, desc, w, ref) ]
 StepH1(E, H, desc, w, ref)      == [ i \in 1..Len(H) |-> H[i] + DerivFwd(E, i, desc, w, ref) ]
+
+\* ---------- edge / origin rule of the three descriptions ----------
+\* Every description centres the domain at 0: the edge array of axis a (1..3) of a volume with shp[a] cells of
+\* width d starts at  origin[a] = -shp[a]*d/2  (UniformGrid.resolve, QuasiUniformGrid.resolve; an explicit
+\* RectilinearGrid is given with exactly these edges).  Coordinates are kept in HALF units (x2 = 2*x) so that the
+\* centred origins stay integral.
+\* variant "origin_other_axis": the uniform policy computes the z origin from the y cell count
+OriginAxis(desc, a, variant) == IF desc = "uniform" /\ variant = "origin_other_axis" /\ a = 3 THEN 2 ELSE a
+Edges2(desc, shp, a, d, variant) == [ i \in 0..shp[a] |-> 2 * d * i - shp[OriginAxis(desc, a, variant)] * d ]
+\* index of the edge a real coordinate x2 (on an edge of the reference grid) resolves to: the nearest edge
+\* (first minimum), as RectilinearGrid.coord_to_index does
+Dist2(e, i, x2) == IF e[i] >= x2 THEN e[i] - x2 ELSE x2 - e[i]
+NearestEdge(e, n, x2) == CHOOSE i \in 0..n : \A j \in 0..n : Dist2(e, i, x2) < Dist2(e, j, x2) \/ (Dist2(e, i, x2) = Dist2(e, j, x2) /\ i <= j)
 =============================================================================
